@@ -1,1 +1,431 @@
-//! engine: catalogue (see DESIGN.md §4)
+//! E5 — operation catalogue driver.
+//!
+//! An `OpSpec` describes one gadget operation: how to synthesise it on `ZkStdLib` (assign the
+//! inputs, run the operation, expose every input and every output through
+//! `constrain_as_public_input`), and an independent reference `f` giving the expected raw
+//! public-input vector (`None` = the input is outside the operation's documented domain, the
+//! circuit must then be unsatisfiable). `check_op` runs, per input:
+//!   1. completeness: honest run accepted by the reference evaluator and by MockProver with
+//!      instance `reference(input)`;
+//!   2. output edits: honest witness, instance edited in each position ⇒ rejected by both;
+//!   3. out-of-domain inputs: the instance the circuit itself binds (read back through the copy
+//!      constraints) must not make it satisfiable;
+//!   4. ARS (E4): adversarial repair search towards edited outputs; a candidate is confirmed by
+//!      MockProver on the same table (H2) and, for k ≤ `real_k_max`, by the real prover under
+//!      the fault plan (H1) + real verifier, before it is reported.
+
+use std::collections::BTreeMap;
+
+use ff::Field;
+use midnight_curves::Fq as F;
+use midnight_proofs::{
+    circuit::{Layouter, Value},
+    dev::{CellValue, MockProver},
+    plonk::Error,
+};
+use midnight_zk_stdlib::{MidnightCircuit, Relation, ZkStdLib, ZkStdLibArch};
+use rand::SeedableRng;
+use rand_chacha::ChaCha8Rng;
+use serde_json::{json, Value as Json};
+
+use super::{
+    ars::{attack, ArsBudget},
+    plonk_util::params_for,
+    ref_eval::{collect, CellRef, CollectOpts, Tables},
+};
+use crate::common::{catch_any, fnv, repo_file, Report};
+
+pub trait OpSpec: Clone + Send + Sync + 'static {
+    /// off-circuit input of the operation
+    type In: Clone + Send + Sync + std::fmt::Debug;
+
+    fn name(&self) -> String;
+
+    fn arch(&self) -> ZkStdLibArch {
+        ZkStdLibArch::default()
+    }
+
+    /// Assign the inputs, run the operation, expose inputs and outputs as public inputs (inputs
+    /// first, then outputs, each through `constrain_as_public_input`).
+    fn synth(&self, std: &ZkStdLib, layouter: &mut impl Layouter<F>, input: Value<Self::In>) -> Result<(), Error>;
+
+    /// Expected raw public-input vector, or `None` when `input` is outside the documented domain.
+    fn reference(&self, input: &Self::In) -> Option<Vec<F>>;
+
+    /// Number of leading instance positions that encode the inputs (they are never edited by the
+    /// output-edit and ARS stages).
+    fn n_input_positions(&self, input: &Self::In) -> usize;
+
+    /// Optional: alternative target values for an output position (e.g. the complement of a bit).
+    fn extra_targets(&self, _pos: usize, honest: F) -> Vec<F> {
+        vec![F::ONE - honest]
+    }
+}
+
+#[derive(Clone)]
+pub struct OpRel<O: OpSpec>(pub O);
+
+impl<O: OpSpec> Relation for OpRel<O> {
+    type Instance = Vec<F>;
+    type Witness = O::In;
+
+    fn format_instance(instance: &Self::Instance) -> Result<Vec<F>, Error> {
+        Ok(instance.clone())
+    }
+
+    fn circuit(
+        &self,
+        std_lib: &ZkStdLib,
+        layouter: &mut impl Layouter<F>,
+        _instance: Value<Self::Instance>,
+        witness: Value<Self::Witness>,
+    ) -> Result<(), Error> {
+        self.0.synth(std_lib, layouter, witness)
+    }
+
+    fn used_chips(&self) -> ZkStdLibArch {
+        self.0.arch()
+    }
+
+    fn write_relation<W: std::io::Write>(&self, _w: &mut W) -> std::io::Result<()> {
+        Ok(())
+    }
+
+    fn read_relation<R: std::io::Read>(_r: &mut R) -> std::io::Result<Self> {
+        Err(std::io::Error::other("OpRel cannot be deserialised"))
+    }
+}
+
+#[derive(Clone, Debug)]
+pub struct OpOptions {
+    pub max_bit_len: u8,
+    pub ars: Option<ArsBudget>,
+    /// confirm ARS candidates with the real prover/verifier when k ≤ this
+    pub real_k_max: u32,
+    /// maximal number of output positions attacked / edited per input
+    pub max_positions: usize,
+    pub property: String,
+}
+
+impl OpOptions {
+    pub fn new(property: &str, thorough: bool) -> Self {
+        OpOptions {
+            max_bit_len: 8,
+            ars: Some(if thorough { ArsBudget::thorough() } else { ArsBudget::quick() }),
+            real_k_max: 12,
+            max_positions: if thorough { 64 } else { 6 },
+            property: property.to_string(),
+        }
+    }
+}
+
+#[derive(Default, Clone, Debug)]
+pub struct OpStats {
+    pub honest_runs: u64,
+    pub edits: u64,
+    pub out_of_domain: u64,
+    pub ars_targets: u64,
+    pub ars_nodes: u64,
+    pub ars_candidates_wrong_output: u64,
+    pub ars_candidates_same_output: u64,
+}
+
+fn hexf(f: &F) -> String {
+    hex::encode(f.to_bytes_le())
+}
+
+/// The instance vector the circuit itself binds on column `col`: values of the advice cells tied
+/// to instance cells by copy constraints (positions without a tie keep `fallback`).
+pub fn bound_instance(t: &Tables<F>, col: usize, fallback: &[F]) -> Vec<F> {
+    let mut rows: BTreeMap<usize, F> = BTreeMap::new();
+    for (a, b) in &t.copies {
+        let (inst, other) = match (a, b) {
+            (CellRef::Instance(c, r), o) if *c == col => (*r, o),
+            (o, CellRef::Instance(c, r)) if *c == col => (*r, o),
+            _ => continue,
+        };
+        rows.insert(inst, t.get(other));
+    }
+    let len = rows.keys().max().map(|m| m + 1).unwrap_or(0).max(fallback.len());
+    (0..len).map(|i| rows.get(&i).copied().or(fallback.get(i).copied()).unwrap_or(F::ZERO)).collect()
+}
+
+/// Number of raw public inputs the circuit binds (max tied row + 1) on the plain column.
+pub fn bound_len(t: &Tables<F>, col: usize) -> usize {
+    let mut m = 0;
+    for (a, b) in &t.copies {
+        for x in [a, b] {
+            if let CellRef::Instance(c, r) = x {
+                if *c == col {
+                    m = m.max(r + 1);
+                }
+            }
+        }
+    }
+    m
+}
+
+fn mock_accepts<O: OpSpec>(k: u32, rel: &OpRel<O>, input: &O::In, pi: &[F], mbl: u8, changed: &BTreeMap<(usize, usize), F>) -> Result<bool, String> {
+    let circuit = MidnightCircuit::new(rel, Value::known(pi.to_vec()), Value::known(input.clone()), Some(mbl));
+    match catch_any(|| {
+        let mut mp = MockProver::<F>::run(k, &circuit, vec![vec![], pi.to_vec()]).map_err(|e| format!("{e:?}"))?;
+        for ((c, r), v) in changed {
+            mp.advice_mut()[*c][*r] = CellValue::Assigned(*v);
+        }
+        Ok::<bool, String>(mp.verify().is_ok())
+    }) {
+        Ok(r) => r,
+        Err(p) => Err(format!("panic@{}: {}", repo_file(&p.file), p.message)),
+    }
+}
+
+/// Real prover under the fault plan + real verifier. `Ok(true)` = proof accepted.
+fn real_accepts<O: OpSpec>(k: u32, rel: &OpRel<O>, input: &O::In, pi: &[F], changed: &BTreeMap<(usize, usize), F>) -> Result<bool, String> {
+    let params = params_for(k);
+    let r = catch_any(|| {
+        let vk = midnight_zk_stdlib::setup_vk(params, rel);
+        let pk = midnight_zk_stdlib::setup_pk(rel, &vk);
+        midnight_proofs::verif_hooks::set_fault_plan::<F>(changed.clone());
+        let proof = midnight_zk_stdlib::prove::<OpRel<O>, blake2b_simd::State>(
+            params,
+            &pk,
+            rel,
+            &pi.to_vec(),
+            input.clone(),
+            ChaCha8Rng::seed_from_u64(7),
+        );
+        let (hits, _) = midnight_proofs::verif_hooks::clear_fault_plan();
+        let proof = match proof {
+            Ok(p) => p,
+            Err(_) => return Ok(false),
+        };
+        if hits.len() < changed.len() {
+            return Err(format!("fault plan hit {} of {} cells", hits.len(), changed.len()));
+        }
+        Ok(midnight_zk_stdlib::verify::<OpRel<O>, blake2b_simd::State>(&params.verifier_params(), &vk, &pi.to_vec(), None, &proof).is_ok())
+    });
+    let _ = midnight_proofs::verif_hooks::clear_fault_plan();
+    match r {
+        Ok(x) => x,
+        Err(p) => Err(format!("panic@{}: {}", repo_file(&p.file), p.message)),
+    }
+}
+
+/// Runs all stages for one operation over the given inputs. Returns per-op statistics.
+pub fn check_op<O: OpSpec>(op: &O, inputs: &[O::In], opts: &OpOptions, seed: u64, rep: &mut Report) -> OpStats {
+    let mut st = OpStats::default();
+    let name = op.name();
+    let prop = &opts.property;
+    let rel = OpRel(op.clone());
+    let mbl = opts.max_bit_len;
+    // k once per operation (structure must not depend on inputs: C09 checks that)
+    let k = match catch_any(|| MidnightCircuit::new(&rel, Value::unknown(), Value::unknown(), Some(mbl)).min_k()) {
+        Ok(k) => k,
+        Err(p) => {
+            rep.violation(
+                &format!("{prop}/{name}/panic-on-unknown-witness@{}", repo_file(&p.file)),
+                &format!("synthesising the operation with an unknown witness panics: {}", p.message),
+                json!({"op": name, "panic": format!("{p:?}")}),
+            );
+            return st;
+        }
+    };
+    let mut rng = crate::common::rng_for(seed, &format!("op-{name}"));
+    for (ii, input) in inputs.iter().enumerate() {
+        let expected = op.reference(input);
+        let wit = || json!({"op": name, "input": format!("{input:?}"), "k": k, "max_bit_len": mbl});
+        let n_in = op.n_input_positions(input);
+        // --- honest run with a provisional instance, then read back what the circuit binds ---
+        let provisional: Vec<F> = expected.clone().unwrap_or_default();
+        let circuit = MidnightCircuit::new(&rel, Value::known(provisional.clone()), Value::known(input.clone()), Some(mbl));
+        let collected = catch_any(|| collect::<F, _>(k, &circuit, &[vec![], provisional.clone()], CollectOpts::default()));
+        rep.eval();
+        st.honest_runs += 1;
+        let mut tables = match collected {
+            Err(p) => {
+                if expected.is_some() {
+                    rep.violation(
+                        &format!("{prop}/{name}/panic-on-admissible-input@{}", repo_file(&p.file)),
+                        &format!("synthesis panics on an admissible input: {}", p.message),
+                        wit(),
+                    );
+                } else {
+                    rep.count(&format!("{name}.out_of_domain.synthesis_panic(counted as rejection)"));
+                    st.out_of_domain += 1;
+                    rep.nontrivial(&(name.clone(), ii, "ood-panic"));
+                }
+                continue;
+            }
+            Ok(Err(e)) => {
+                if expected.is_some() {
+                    rep.violation(
+                        &format!("{prop}/{name}/synthesis-error-on-admissible-input"),
+                        &format!("synthesis fails on an admissible input: {e}"),
+                        wit(),
+                    );
+                } else {
+                    rep.count(&format!("{name}.out_of_domain.synthesis_error(rejection)"));
+                    st.out_of_domain += 1;
+                    rep.nontrivial(&(name.clone(), ii, "ood-err"));
+                }
+                continue;
+            }
+            Ok(Ok(t)) => t,
+        };
+        let bound = bound_instance(&tables, 1, &provisional);
+        match &expected {
+            None => {
+                // out of domain: with the instance the circuit binds, it must not be satisfiable
+                st.out_of_domain += 1;
+                rep.nontrivial(&(name.clone(), ii, "ood"));
+                let mut inst = tables.instance.clone();
+                for (i, v) in bound.iter().enumerate() {
+                    inst[1][i] = *v;
+                }
+                let old = std::mem::replace(&mut tables.instance, inst);
+                let sat = tables.violations(1).is_empty();
+                tables.instance = old;
+                if sat {
+                    // confirm with the repository's checker
+                    let mock = mock_accepts(k, &rel, input, &bound, mbl, &BTreeMap::new());
+                    if matches!(mock, Ok(true)) {
+                        rep.violation(
+                            &format!("{prop}/{name}/accepts-out-of-domain-input"),
+                            "an input outside the documented domain yields a satisfiable circuit (reference evaluator and MockProver accept)",
+                            json!({"op": name, "input": format!("{input:?}"), "bound_instance": bound.iter().map(hexf).collect::<Vec<_>>()}),
+                        );
+                    } else {
+                        rep.inconclusive(&format!("{name}: out-of-domain input accepted by the reference evaluator but not by mock: {mock:?}"));
+                    }
+                } else {
+                    rep.count(&format!("{name}.out_of_domain.rejected"));
+                }
+                continue;
+            }
+            Some(exp) => {
+                // completeness
+                if bound_len(&tables, 1) != exp.len() {
+                    rep.violation(
+                        &format!("{prop}/{name}/public-input-count"),
+                        &format!("the circuit binds {} raw public inputs, the reference encoding has {}", bound_len(&tables, 1), exp.len()),
+                        wit(),
+                    );
+                    continue;
+                }
+                let fails = tables.violations(4);
+                if !fails.is_empty() {
+                    rep.violation(
+                        &format!("{prop}/{name}/rejects-honest"),
+                        &format!(
+                            "honest run with instance = reference(input) is unsatisfied: {:?}; circuit binds {:?}, reference says {:?}",
+                            fails,
+                            bound.iter().map(hexf).collect::<Vec<_>>(),
+                            exp.iter().map(hexf).collect::<Vec<_>>()
+                        ),
+                        wit(),
+                    );
+                    continue;
+                }
+                match mock_accepts(k, &rel, input, exp, mbl, &BTreeMap::new()) {
+                    Ok(true) => {}
+                    other => {
+                        rep.violation(
+                            &format!("{prop}/{name}/mock-rejects-honest"),
+                            &format!("MockProver rejects the honest run the reference evaluator accepts: {other:?}"),
+                            wit(),
+                        );
+                        continue;
+                    }
+                }
+                rep.nontrivial(&(name.clone(), fnv(format!("{input:?}").as_bytes())));
+                if rep.samples.len() < rep.max_samples && ii == 0 {
+                    rep.sample(json!({"op": name, "k": k, "input": format!("{input:?}"), "instance": exp.iter().map(hexf).collect::<Vec<_>>(),
+                                      "assigned_advice_cells": tables.assigned_advice_cells().len()}));
+                }
+                // --- output edits ---
+                let n_out = exp.len().saturating_sub(n_in);
+                let positions: Vec<usize> = (n_in..exp.len()).take(opts.max_positions).collect();
+                for &pos in &positions {
+                    let mut targets = vec![exp[pos] + F::ONE, F::ZERO];
+                    targets.extend(op.extra_targets(pos - n_in, exp[pos]));
+                    targets.retain(|t| *t != exp[pos]);
+                    targets.dedup();
+                    for tv in targets {
+                        st.edits += 1;
+                        rep.eval();
+                        let old = tables.instance[1][pos];
+                        tables.instance[1][pos] = tv;
+                        let sat = tables.violations(1).is_empty();
+                        tables.instance[1][pos] = old;
+                        if sat {
+                            rep.violation(
+                                &format!("{prop}/{name}/edited-output-accepted"),
+                                &format!("honest witness accepted with output position {} edited", pos - n_in),
+                                json!({"op": name, "input": format!("{input:?}"), "position": pos, "value": hexf(&tv)}),
+                            );
+                        }
+                        // --- ARS towards this edited output ---
+                        if let Some(budget) = &opts.ars {
+                            st.ars_targets += 1;
+                            let (att, stats) = attack(&mut tables, &[(1, pos, tv)], &[], budget, &mut rng);
+                            st.ars_nodes += stats.nodes;
+                            if let Some(att) = att {
+                                st.ars_candidates_wrong_output += 1;
+                                let mut target_pi = exp.clone();
+                                target_pi[pos] = tv;
+                                let mock = mock_accepts(k, &rel, input, &target_pi, mbl, &att.changed);
+                                let real = if k <= opts.real_k_max {
+                                    Some(real_accepts(k, &rel, input, &target_pi, &att.changed))
+                                } else {
+                                    None
+                                };
+                                let confirmed = matches!(mock, Ok(true)) && real.as_ref().map(|r| matches!(r, Ok(true))).unwrap_or(true);
+                                let w = json!({"op": name, "input": format!("{input:?}"), "k": k, "position": pos - n_in,
+                                    "honest_output": hexf(&exp[pos]), "forged_output": hexf(&tv),
+                                    "changed_cells": att.changed.iter().map(|((c, r), v)| json!([c, r, hexf(v)])).collect::<Vec<_>>(),
+                                    "mock": format!("{mock:?}"), "real": format!("{real:?}"), "nodes": stats.nodes});
+                                if confirmed {
+                                    rep.violation(
+                                        &format!("{prop}/{name}/forged-output"),
+                                        &format!(
+                                            "adversarial assignment ({} changed cells) makes the circuit accept a wrong output at position {} (MockProver accepts; real verifier: {:?})",
+                                            att.changed.len(),
+                                            pos - n_in,
+                                            real
+                                        ),
+                                        w,
+                                    );
+                                } else {
+                                    rep.inconclusive(&format!("{name}: ARS candidate not confirmed by mock/real: mock={mock:?} real={real:?}"));
+                                }
+                                // restore the honest tables for the next target
+                                tables = match collect::<F, _>(k, &circuit, &[vec![], exp.clone()], CollectOpts::default()) {
+                                    Ok(t) => t,
+                                    Err(_) => break,
+                                };
+                            }
+                        }
+                    }
+                }
+                let _ = n_out;
+            }
+        }
+    }
+    rep.count_n(&format!("{name}.honest_runs"), st.honest_runs);
+    rep.count_n(&format!("{name}.edits"), st.edits);
+    rep.count_n(&format!("{name}.ars_targets"), st.ars_targets);
+    rep.count_n(&format!("{name}.ars_nodes"), st.ars_nodes);
+    st
+}
+
+/// Convenience for evidence: a JSON summary of a list of per-op stats.
+pub fn stats_json(all: &BTreeMap<String, OpStats>) -> Json {
+    json!(all
+        .iter()
+        .map(|(k, s)| (
+            k.clone(),
+            json!({"honest": s.honest_runs, "edits": s.edits, "ood": s.out_of_domain, "ars_targets": s.ars_targets, "ars_nodes": s.ars_nodes,
+                   "ars_wrong_output_candidates": s.ars_candidates_wrong_output})
+        ))
+        .collect::<BTreeMap<_, _>>())
+}
